@@ -83,6 +83,19 @@ fn strip_empty<'a>(ls: &'a [Vec<MCell>]) -> Vec<&'a [MCell]> {
 }
 
 /// C10: what a resize of the primary screen may do to the logical text and the cursor.
+/// `same_width`: nothing is re-wrapped, so the cursor's offset in its line (wrap-pending = one past
+/// the last column) must be exactly what it was - otherwise text that was before the cursor is no
+/// longer before it.
+pub fn resize_relation_w(b: &Logical, a: &Logical, same_width: bool) -> Option<&'static str> {
+    if let Some(e) = resize_relation(b, a) {
+        return Some(e);
+    }
+    if same_width && a.cur != b.cur {
+        return Some("a height-only resize moved the cursor within its logical line (e.g. a pending wrap was dropped)");
+    }
+    None
+}
+
 pub fn resize_relation(b: &Logical, a: &Logical) -> Option<&'static str> {
     let k = b.cur.0;
     for i in 0..k {
